@@ -17,8 +17,10 @@ RULE = (
     "breadth-first over histories of plan edits and user actions on outputs (overwrite, replace by a "
     "directory, delete, adopt as static, drop a foreign file next to it), crossed with clean / "
     "no-clean / targets / keep-going / a failing step; every remove and rmdir issued by the "
-    "director's cleanup or by `stepup clean` is intercepted before it executes and judged; "
-    "non-trivial: at least one removal was attempted"
+    "director's cleanup or by `stepup clean` is intercepted before it executes and judged; the "
+    "rebuild after every single plan edit is also drained at every quiescent point (one "
+    "deviation) and must then remove nothing; non-trivial: at least one removal was attempted, or "
+    "a build was drained"
 )
 ASSUMPTIONS = [
     "removals are observed at path.Path.remove/remove_p/rmdir, the only calls the code uses",
@@ -236,7 +238,7 @@ def _judge(removals, tracker, desc, may_clean, unsafe=False, user_paths=()):
     return out
 
 
-def run_hist(descs, cfgname, targets=None):
+def run_hist(descs, cfgname, targets=None, last_prefix=(), last_extra=None):
     """Run a history with the removal monitor; returns (world, obs_list, tracker, per-build removals)."""
     tracker = Tracker()
     cfg = dict(CONFIGS[cfgname])
@@ -256,7 +258,10 @@ def run_hist(descs, cfgname, targets=None):
             for action, path in desc.get("act", ()):
                 hist.user_action(world, action, path)
         del REMOVALS[:]
-        obs = hist.build(world, desc, cfg)
+        if i == len(descs) - 1 and (last_prefix or last_extra):
+            obs = hist.build(world, desc, {**cfg, **(last_extra or {})}, last_prefix)
+        else:
+            obs = hist.build(world, desc, cfg)
         obs_list.append(obs)
         removed.append(list(REMOVALS))
         if obs.fault or obs.error:
@@ -287,6 +292,9 @@ def jobs(tier, seed):
             for elabel, d in hist.knob_edits(start):
                 out.append({"start": start, "first": (elabel, d), "depth": 1, "cfg": "clean",
                             "targets": TARGETS[fam], "clean_tool": False})
+        # the rebuild after each single plan edit, drained at any point
+        for elabel, d in hist.knob_edits(start):
+            out.append({"part": "drain", "start": start, "first": (elabel, d), "cfg": "clean"})
     return out
 
 
@@ -329,7 +337,67 @@ def run_clean_tool(world, args):
                 os.environ[k] = v
 
 
+def drain_events(sim):
+    from ..harness import EnvEvent
+
+    if sim.handler is None or "drained" in sim.flags or not sim.running:
+        return []
+
+    def fn(s):
+        s.flags.add("drained")
+        s.loop.create_task(s.handler.drain())
+
+    return [EnvEvent("drain", fn)]
+
+
+def run_drain(spec, acc):
+    """The rebuild after one plan edit is drained (`stepup drain`) at every quiescent point at
+    which a command runs, and explored with one deviation: a build that ends drained, failed or
+    pending is incomplete and its cleanup pass must remove nothing."""
+    from ..explore import explore
+
+    fam = spec["start"]["fam"]
+    descs = [spec["start"], spec["first"][1]]
+
+    def run(prefix):
+        world, obs_list, tracker, removed = run_hist(descs, spec["cfg"], None, prefix,
+                                                     {"env_events": drain_events})
+        try:
+            last = obs_list[-1]
+            last.removed = removed[-1] if len(removed) == len(descs) else []
+            last.tracker = tracker
+            return last
+        finally:
+            world.destroy()
+            ROOT[0] = None
+
+    def visit(prefix, last):
+        acc.evaluations += 1
+        acc.transitions += last.nev
+        if last.rc is None:
+            return
+        incomplete = bool(last.rc.value & ~8)
+        acc.states.add(h8([fam, spec["first"][0], last.trace]))
+        if "drained" in last.flags:
+            acc.nontrivial.add(h8([fam, spec["first"][0], last.choices]))
+            acc.count("drained_builds")
+        if incomplete:
+            gone = [r for r in last.removed if r.get("removed")]
+            if gone:
+                acc.violation(f"C06|{fam}|cleanup-after-incomplete-build|{'drained' if last.draining else last.rc_class}",
+                              {"family": fam, "edit": spec["first"][0], "rc": last.rc_class,
+                               "drained": bool(last.draining), "removed": gone[:6], "exec": describe(last, 40)},
+                              {"check": "C06", "descs": descs, "prefix": last.choices})
+        acc.outcomes.setdefault(h8([fam, "drain", last.rc_class, bool(last.removed)]), 1)
+
+    explore(run, 1, visit)
+
+
 def run_job(spec):
+    if spec.get("part") == "drain":
+        acc = Acc()
+        run_drain(spec, acc)
+        return acc
     acc = Acc()
     fam = spec["start"]["fam"]
     cfgname = spec["cfg"]
